@@ -77,3 +77,11 @@ Theorem C09_loss_forgets : forall ops1 ops2,
   lost s = true /\ o_tab (ow s) = [] /\ h_tab (hd s) = [] /\ ch_oh s = [] /\ ch_ho s = [].
 Proof. exact loss_forgets. Qed.
 Print Assumptions C09_loss_forgets.
+
+(* "... or a message carrying the reference is in flight", third-party form: for every sequence of give-aways, drops by the
+   gifter's application and decgifts, while a gift is outstanding (the recipient has not yet acknowledged the introduction)
+   the gifter's proxy is alive -- hence, by C09_no_early_release on the owner-gifter connection, the owner keeps the object *)
+Theorem C09_gift_outstanding_keeps_proxy : forall ops,
+  let g := grun ginit ops in 0 < g_gifts g -> gproxy_alive gift_table_pins_proxy g = true.
+Proof. exact gift_outstanding_keeps_proxy. Qed.
+Print Assumptions C09_gift_outstanding_keeps_proxy.
